@@ -61,6 +61,9 @@ func ledgerKindSets(id string, thorough bool) (single, pair []TxKind) {
 	if thorough {
 		pair = append(append([]TxKind{}, ledgerKinds...), c04RecipientKindsPairThorough...)
 	}
+	// the same funded contract self-destructs twice within one tx (with and without being paid again in between)
+	single = append(single, KKillTwice, KKillPayKill)
+	pair = append(pair, KKillTwice, KKillPayKill)
 	return
 }
 
